@@ -44,80 +44,108 @@ class Slots(object):
         return 'Slots(%s)' % ', '.join('%s=%r' % (k, getattr(self, k)) for k in self.__slots__ if hasattr(self, k))
 
 
+class BudgetExceeded(BaseException):
+    """a traversal touched more elements than its budget allows (non-termination guard);
+    a BaseException so that no `except Exception` inside the code under test swallows it"""
+
+
 class Log(list):
     """shared access log of the recording containers of one target"""
+    budget = None
+
     def reset(self):
         del self[:]
 
+    def append(self, item):
+        list.append(self, item)
+        if self.budget is not None and len(self) > self.budget:
+            raise BudgetExceeded(len(self))
+
 
 class RecDict(dict):
-    _log = None
-    _nid = None
+    # no instance __dict__ (see RecList)
+    __slots__ = ('_log', '_nid')
+
+    def _logit(self, *entry):
+        log = getattr(self, '_log', None)
+        if log is not None:
+            log.append((getattr(self, '_nid', None),) + entry)
 
     def __getitem__(self, k):
-        if self._log is not None:
-            self._log.append((self._nid, 'getitem', k))
+        self._logit('getitem', k)
         return dict.__getitem__(self, k)
 
     def __setitem__(self, k, v):
-        if self._log is not None:
-            self._log.append((self._nid, 'setitem', k))
+        self._logit('setitem', k)
         return dict.__setitem__(self, k, v)
 
     def __delitem__(self, k):
-        if self._log is not None:
-            self._log.append((self._nid, 'delitem', k))
+        self._logit('delitem', k)
         return dict.__delitem__(self, k)
+
+    __hash__ = None
 
 
 class RecList(list):
-    _log = None
-    _nid = None
+    # no instance __dict__: glom's duck type for "object with attributes" must not capture it
+    __slots__ = ('_log', '_nid')
+
+    def _logit(self, *entry):
+        log = getattr(self, '_log', None)
+        if log is not None:
+            log.append((getattr(self, '_nid', None),) + entry)
 
     def __getitem__(self, k):
-        if self._log is not None:
-            self._log.append((self._nid, 'getitem', k))
+        self._logit('getitem', k)
         return list.__getitem__(self, k)
 
     def __setitem__(self, k, v):
-        if self._log is not None:
-            self._log.append((self._nid, 'setitem', k))
+        self._logit('setitem', k)
         return list.__setitem__(self, k, v)
 
     def __delitem__(self, k):
-        if self._log is not None:
-            self._log.append((self._nid, 'delitem', k))
+        self._logit('delitem', k)
         return list.__delitem__(self, k)
+
+    def __iter__(self):
+        self._logit('iter')
+        return list.__iter__(self)
 
     __hash__ = None
 
 
 class RecObj(Obj):
+    # the log lives in slots, not in the instance __dict__, so that the attribute namespace
+    # seen by the code under test contains only the generated attributes
+    __slots__ = ('_log', '_nid')      # (__dict__ is inherited from Obj)
+
     def __getattribute__(self, name):
         if not name.startswith('_'):
-            log = object.__getattribute__(self, '__dict__').get('_log')
+            try:
+                log = object.__getattribute__(self, '_log')
+            except AttributeError:
+                log = None
             if log is not None:
-                log.append((object.__getattribute__(self, '__dict__').get('_nid'), 'getattr', name))
+                log.append((object.__getattribute__(self, '_nid'), 'getattr', name))
         return object.__getattribute__(self, name)
 
     def __setattr__(self, name, value):
         if not name.startswith('_'):
-            log = self.__dict__.get('_log')
+            log = getattr(self, '_log', None)
             if log is not None:
-                log.append((self.__dict__.get('_nid'), 'setattr', name))
+                log.append((self._nid, 'setattr', name))
         object.__setattr__(self, name, value)
 
     def __delattr__(self, name):
         if not name.startswith('_'):
-            log = self.__dict__.get('_log')
+            log = getattr(self, '_log', None)
             if log is not None:
-                log.append((self.__dict__.get('_nid'), 'delattr', name))
+                log.append((self._nid, 'delattr', name))
         object.__delattr__(self, name)
 
     @recursive_repr()
     def __repr__(self):
-        return 'RecObj(%s)' % ', '.join('%s=%r' % kv for kv in sorted(self.__dict__.items())
-                                        if not kv[0].startswith('_'))
+        return 'RecObj(%s)' % ', '.join('%s=%r' % kv for kv in sorted(self.__dict__.items()))
 
 
 SCALAR_TAGS = ('i', 's', 'f', 'b', 'none', 'bytes')
@@ -181,8 +209,8 @@ def _build(r, b):
         for k, v in r[1]:
             c.__dict__[k] = _build(v, b)
         if tag == 'robj':
-            c.__dict__['_log'] = b.log
-            c.__dict__['_nid'] = nid
+            object.__setattr__(c, '_log', b.log)
+            object.__setattr__(c, '_nid', nid)
         return c
     if tag == 'slots':
         c = Slots()
